@@ -79,6 +79,7 @@ def gen_case(rng, kind):
     return {"spec": spec, "kind": kind, "npin": npin, "npartitions": k if npin < 11 else int(rng.integers(1, 4)),
             "p": int(rng.choice([2, 6, 10, 15, 17, 20])), "mode": MODES[int(rng.integers(3))],
             "compression": ["snappy", "gzip", None][int(rng.integers(3))],
+            "int_type": [None, None, "np.int64", "np.int32"][int(rng.integers(4))],
             "previous": [None, None, "larger", "smaller"][int(rng.integers(4))],
             "seed": int(rng.integers(2 ** 31))}
 
@@ -127,6 +128,11 @@ def check_rows(ctx, viol, frame, where, src, act, kind, p, w, case):
     return True
 
 
+def _as(v, how):
+    """the counts as a caller may hold them: Python int, numpy int64 / int32 scalar"""
+    return {"np.int64": np.int64, "np.int32": np.int32}.get(how, int)(v)
+
+
 def check_case(ctx, case):
     import dask
     import dask.dataframe as dd
@@ -162,7 +168,8 @@ def check_case(ctx, case):
             if slog:
                 os.mkdir(os.path.join(ctx.scratch, f"MARK-begin-{case['seed']}"))
             ok, res, tb = ctx.guarded(lambda: ddf.pack_partitions_to_parquet(
-                path, filesystem=fs, npartitions=k, p=p, compression=case["compression"],
+                path, filesystem=fs, npartitions=_as(k, case.get("int_type")), p=_as(p, case.get("int_type")),
+                compression=case["compression"],
                 tempdir_format=tempdir_format(mode, root), _retry_args=RETRY,
                 overwrite=bool(case["previous"])))
             fs.armed = False
